@@ -337,4 +337,13 @@ def r11_cli(F, R):
     n = roles.check_cli_surface(F, R, "runner::basic::Cli")
     R.floor(5)
 
-RULES = [("R6", r6, None), ("R1", r1, None), ("R2", r2, None), ("R3", r3, None), ("R4", r4, None), ("R5", r5, None), ("R7", r7, None), ("R8", r8, None), ("R9", r9_clone, None), ("R10", r10_setters, None), ("R11", r11_cli, None)]
+def r12_init(F, R):
+    """"... and finally to one retry and no delay" / "`--fail-fast` adds to the builder settings": a runner nobody configured retries nothing, has no delay, no filter, no fail-fast and no hooks (`Basic::default()` on its path table)."""
+    ds = [b for b in F.crate_bodies() if (b.impl or {}).get("trait") == "std::default::Default" and (b.impl or {}).get("self_adt") == "runner::basic::Basic" and b.name.endswith("::default")]
+    if len(ds) != 1:
+        raise Unverifiable(f"Default for runner::Basic: {len(ds)}")
+    roles.check_initial_state(F, R, ds[0], "runner::basic::Basic", {"retries": "None", "retry_after": "None", "retry_filter": "None", "fail_fast": False,
+                                                                   "before_hook": "None", "after_hook": "None"}, "runner-defaults")
+    R.floor(1)
+
+RULES = [("R6", r6, None), ("R1", r1, None), ("R2", r2, None), ("R3", r3, None), ("R4", r4, None), ("R5", r5, None), ("R7", r7, None), ("R8", r8, None), ("R9", r9_clone, None), ("R10", r10_setters, None), ("R11", r11_cli, None), ("R12", r12_init, None)]
